@@ -28,6 +28,7 @@ CONSTANTS Mixes,        \* set of command mixes; a mix is a sequence of kinds, t
           EventSides,   \* endpoints whose Poll may report an event
           MaxEdits, MaxEvents, MaxFaults,   \* budgets: external edits, poll events, injected endpoint faults
           Export,       \* TRUE: keep the harness-controllable events of the behaviour in s.h
+          RunToBlock,   \* TRUE: the environment (harness) acts only when neither the loop nor a command can move on its own
           Mut           \* "none", or the name of a seeded mutation of the algorithm (to show that the invariants bite)
 
 VARIABLE s
@@ -156,6 +157,17 @@ TransReturn(t, x) ==
   IN {Done(Ret("ok"), "ok")}
      \cup (IF Budget(t) THEN {Done(Fault(Ret("missing")), "missing"), Done(Fault(Ret("err")), "err")} ELSE {})
 
+\* the poll select: woken by cancellation or by a queued flush request (internal) ...
+PollInternal(t) ==
+  (IF t.cancelled THEN {SyncReturn(PollReturns(t), FALSE)} ELSE {})
+  \cup (IF t.flushQ # <<>>
+        THEN {ScanCall([PollReturns(t) EXCEPT !.flushHeld = Head(t.flushQ), !.flushQ = Tail(@)])} ELSE {})
+\* ... or by an endpoint reporting an event (the harness decides)
+PollEvent(t) ==
+  IF t.events < MaxEvents
+  THEN {ScanCall(H([PollReturns(t) EXCEPT !.events = @ + 1], [a |-> "event", side |-> x])) : x \in EventSides}
+  ELSE {}
+
 LoopSteps(t) ==
   CASE t.lpc = "connect" ->        \* the connect loop of run(): cancellation is checked between the two dials
          IF t.cancelled THEN {Exit(t)}
@@ -168,12 +180,7 @@ LoopSteps(t) ==
          IF t.skipPoll THEN {ScanCall(t)}
          ELSE {Mon([t EXCEPT !.connected = TRUE, !.lpc = "poll"], Both("Poll", "call"))}
     [] t.lpc = "poll" ->           \* select: endpoint event | flush request | cancellation
-         (IF t.cancelled THEN {SyncReturn(PollReturns(t), FALSE)} ELSE {})
-         \cup (IF t.flushQ # <<>>
-               THEN {ScanCall([PollReturns(t) EXCEPT !.flushHeld = Head(t.flushQ), !.flushQ = Tail(@)])} ELSE {})
-         \cup (IF t.events < MaxEvents
-               THEN {ScanCall(H([PollReturns(t) EXCEPT !.events = @ + 1], [a |-> "event", side |-> x])) : x \in EventSides}
-               ELSE {})
+         PollInternal(t) \cup PollEvent(t)
     [] t.lpc = "scanning" ->       \* both scans return (the harness decides when, and with what outcome)
          LET Ret(out) == Mon(H(t, [a |-> "scan", out |-> out]),
                              <<E("alpha", "Scan", "return", out, Nil, IF out = "ok" THEN t.da ELSE Nil),
@@ -295,7 +302,17 @@ CmdSteps(t, i) ==
     [] OTHER -> {}
 
 Command(i) == s' \in CmdSteps(s, i)
-Next == Loop \/ Edit \/ \E i \in Ids(s) : Command(i)
+
+\* Steps the real system takes on its own, without the harness doing anything: a command that has been called runs until
+\* it blocks; the loop runs until it blocks on an endpoint operation or in the poll select.  (The harness's moves are:
+\* call a command, edit a root, report a poll event, let a gated endpoint operation return.)
+GatePcs == {"scanning", "stagingA", "stagingB", "transitioning"}
+InternalSteps(t) ==
+  (IF t.lpc \in GatePcs THEN {} ELSE IF t.lpc = "poll" THEN PollInternal(t) ELSE LoopSteps(t))
+  \cup UNION {IF t.cpc[i] = "idle" THEN {} ELSE CmdSteps(t, i) : i \in Ids(t)}
+EnvEnabled == ~RunToBlock \/ InternalSteps(s) = {}
+Next == IF EnvEnabled THEN Loop \/ Edit \/ \E i \in Ids(s) : Command(i)
+        ELSE s' \in InternalSteps(s)
 MaxN == 4
 Spec == Init /\ [][Next]_s /\ WF_s(Loop) /\ \A i \in 1..MaxN : WF_s(i \in Ids(s) /\ Command(i))
 
